@@ -3,7 +3,7 @@
 use super::*;
 use super::c21_alu::charge;
 
-pub(crate) const LS: usize = 32; // initialised stack bytes
+pub(crate) const LS: usize = 64; // initialised stack bytes
 pub(crate) const LH: usize = 16; // initialised heap bytes
 
 pub(crate) struct St {
